@@ -144,8 +144,24 @@ func init() {
 	}
 	// sixth batch (DESIGN 10.9)
 	more6 := map[string][]string{
-		"C02": {"nothing the parser consumes from the signed attributes is dropped, and what it keeps is what the encoder emits (A.lossless, X3.pair; shared with C16)"},
-		"C04": {"nothing the parser consumes from the signed attributes is dropped: structures inside them are accounted for to the end, single-valued fields are not filled twice (A.lossless; found and led to the repair of parseAttributes)", "every field the attribute parser fills is emitted by the encoder under the same type and primitive, from one wire form (X3.pair)"},
+		"C01": {"no bounded view (LimitReader, CopyN, constant section) between the image reader and the hash (J9.unbounded)", "a part that returns its last bytes together with io.EOF has them counted (J10.eofdata; found and led to the repair of multi.ReadAt)"},
+		"C02": {"nothing the parser consumes from the signed attributes is dropped, and what it keeps is what the encoder emits (A.lossless, X3.pair; shared with C16)", "the signature operand is exactly the signer entry's encrypted digest (A.sig-exact)", "the digest covers the [0] content with exactly one header taken off (A.content-value)", "J9.unbounded, J10.eofdata"},
+		"C03": {"J10.eofdata"},
+		"C04": {"nothing the parser consumes from the signed attributes is dropped: structures inside them are accounted for to the end, single-valued fields are not filled twice (A.lossless; found and led to the repair of parseAttributes)", "every field the attribute parser fills is emitted by the encoder under the same type and primitive, from one wire form (X3.pair)", "the signature operand is exactly the parsed encrypted digest, stored exactly as read (A.sig-exact)", "the digest covers the [0] content with exactly one header taken off (A.content-value)", "a pointer field the parser fills only on some paths is nil-tested before every use (N4.partial)"},
+		"C05": {"the signer identifier is an unconditional issuerAndSerialNumber (L5.sid)", "a function literal kept for later does not capture the loop variable (X6.distinct)", "J9.unbounded"},
+		"C06": {"signed payload and emitted payload come from the same encoder (I9.samepayload)", "every list is written (G8.all)"},
+		"C07": {"no error of the decoding layer is dropped (G4.surface)", "no read-ahead consumer on the decoder's stream, also through a re-bound variable (G12.exact)", "a removal drops only the list it emptied (K2.paired)"},
+		"C08": {"no error of the decoding layer is dropped (G4.surface)", "every accepted list has SignatureSize >= 16 (A-d.size-min)", "a second %w operand keeps io.EOF transparency (G4.eof)", "G12.exact through a re-bound stream variable"},
+		"C09": {"a 'found' answer needs owner and data equality (K11.exact)", "a mutator that can run twice in one operation does not fail half-way (K0.atomic:loop)", "every entry the list decoder reads is kept (K2.decoded)"},
+		"C10": {"where the reader keeps a header field the writer emits the field, not a constant (G1.fromvalue)"},
+		"C11": {"the write path touches the file system only with open-for-write, Write, Close (F1.touch)", "the value handed to WriteVar is encoded without being consumed (E.pure)", "no per-variable state outside the file system (F16.stateless)", "the decoder's verdict is final on the read path (F15.final)"},
+		"C12": {"F1.touch, F16.stateless", "what is stored after a signed update is the rest of the input behind the descriptor (F10.exact)"},
+		"C13": {"no input-driven recursion (R.recurse)", "no String/Error method formats its own receiver (B.selfformat)", "a pass over the hashed stream inside a loop leaves the loop (T12.rehash; known finding on (*PECOFFBinary).Verify)", "N4.partial"},
+		"C14": {"R.recurse, B.selfformat"},
+		"C15": {"a forwarder fed from a reader kept in a struct field does not drop its error (C1.dropped)"},
+		"C17": {"ParseUtf16Var refuses nothing but decoder errors and a missing terminator (A-u.refuse)", "its result comes from the x/text decoder only (A-u.source)"},
+		"C18": {"A-u.refuse, A-u.source", "the decoder's verdict on a load option is final (F15.final)"},
+		"C19": {"a decoded value shares no memory with its input (G9.copy)"},
 	}
 	for k, v := range more6 {
 		more[k] = append(more[k], v...)
